@@ -424,10 +424,12 @@ class XsdElement(XsdComponent, ParticleMixin,
         if isinstance(node, SchemaElementNode):
             return node
 
+        # Not a node of the schema tree (a local element or a copy): the new node
+        # must not be added to the global elements of the schema node.
         return build_schema_node_tree(
             root=self,
             elements=schema_node.elements,
-            global_elements=schema_node.children,
+            global_elements=schema_node.children[:],
         )
 
     @property
